@@ -273,6 +273,9 @@ func (s *chaos) props() {
 			if r.chance(1, 5) {
 				val = "nil"
 			}
+			if r.chance(1, 5) {
+				val = fmt.Sprintf("P%d", 500000+r.n(4)) // one of a few pointers with equal payloads
+			}
 		}
 		g.do(fmt.Sprintf("setprop %s %s %s", o, key, val))
 	case q < 8:
